@@ -639,3 +639,169 @@ Proof.
       * rewrite Hassoc1. exact Hlt.
       * exists ps'. split; [exact A|]. split; [rewrite <- Hassoc2; exact B|exact C].
 Qed.
+
+(** ** one id per line, through the system section *)
+Lemma cnt_emit_input st i : cnt st -> cnt (emit_input st i).
+Proof.
+  unfold emit_input. destruct (sort_id st (type_of i)) as [st1 sort] eqn:Es. intros Hc.
+  apply (cnt_sort_id _ _ _ _ Es) in Hc. unfold cnt in *. cbn [new_id reg_expr emit w_next w_lines List.length]. lia.
+Qed.
+
+Lemma cnt_inputs l : forall st, cnt st -> cnt (fold_left emit_input l st).
+Proof. induction l as [|i l IH]; intros st Hc; cbn [fold_left]; [exact Hc|]. apply IH. apply cnt_emit_input. exact Hc. Qed.
+
+Lemma cnt_emit_state st s st' sid : emit_state st s = POk (st', sid) -> cnt st -> cnt st'.
+Proof.
+  unfold emit_state. destruct (sort_id st (type_of (st_sym s))) as [st1 sort] eqn:Es. intros H Hc.
+  apply (cnt_sort_id _ _ _ _ Es) in Hc.
+  destruct (st_init s) as [init|].
+  - destruct (emit_state_init st1 s init) as [[st2 iid]| |] eqn:Ei; cbn [pbind] in H; try discriminate.
+    assert (Hc2 : cnt st2).
+    { unfold emit_state_init in Ei. destruct (type_of (st_sym s)); [|destruct init]; apply (cnt_emit_expr _ _ _ _ Ei); exact Hc. }
+    cbn [new_id] in H. inversion H; subst. unfold cnt in *. cbn [emit reg_expr w_next w_lines List.length]. lia.
+  - cbn [pbind new_id] in H. inversion H; subst. unfold cnt in *. cbn [emit reg_expr w_next w_lines List.length]. lia.
+Qed.
+
+Lemma cnt_emit_states l : forall st st' ids, emit_states st l = POk (st', ids) -> cnt st -> cnt st'.
+Proof.
+  induction l as [|s l IH]; intros st st' ids H Hc; cbn [emit_states] in H.
+  - inversion H; subst; exact Hc.
+  - destruct (emit_state st s) as [[st1 sid]| |] eqn:E1; cbn [pbind] in H; try discriminate.
+    destruct (emit_states st1 l) as [[st2 ids']| |] eqn:E2; cbn [pbind] in H; try discriminate.
+    inversion H; subst. eapply IH; [exact E2|]. eapply cnt_emit_state; eauto.
+Qed.
+
+Lemma cnt_props kind l : forall st st', emit_props kind st l = POk st' -> cnt st -> cnt st'.
+Proof.
+  induction l as [|e l IH]; intros st st' H Hc; cbn [emit_props] in H.
+  - inversion H; subst; exact Hc.
+  - destruct (emit_expr e st) as [[st1 body]| |] eqn:E; cbn [pbind new_id] in H; try discriminate.
+    apply (IH _ _ H). apply (cnt_emit_expr _ _ _ _ E) in Hc. unfold cnt in *. cbn [emit w_next w_lines List.length]. lia.
+Qed.
+
+Lemma cnt_nexts l : forall ids st st', emit_nexts st l ids = POk st' -> cnt st -> cnt st'.
+Proof.
+  induction l as [|s l IH]; intros ids st st' H Hc; cbn [emit_nexts] in H; [inversion H; subst; exact Hc|].
+  destruct ids as [|sid ids]; [inversion H; subst; exact Hc|].
+  destruct (st_next s) as [nx|]; [|eapply IH; eauto].
+  destruct (sort_id st (type_of (st_sym s))) as [st1 sort] eqn:Es.
+  destruct (emit_expr nx st1) as [[st2 nid]| |] eqn:E; cbn [pbind new_id] in H; try discriminate.
+  apply (IH _ _ _ H). apply (cnt_sort_id _ _ _ _ Es) in Hc. apply (cnt_emit_expr _ _ _ _ E) in Hc.
+  unfold cnt in *. cbn [emit w_next w_lines List.length]. lia.
+Qed.
+
+(** ** the whole text *)
+Lemma inv_init : Inv [] w_empty p_empty.
+Proof. constructor; [reflexivity|apply map_ok_nil| |]; intros ? ? H; discriminate. Qed.
+
+Lemma sh_init' : Sh [] p_empty [] [] [].
+Proof.
+  constructor.
+  - intros s. split; intros H; inversion H.
+  - reflexivity.
+  - reflexivity.
+  - intros j sid H. destruct j; discriminate.
+  - reflexivity.
+  - intros s e [].
+Qed.
+
+Definition sys_fits (sy : sys) : bool := forallb efits (all_exprs sy).
+
+Lemma emit_states_len l : forall st st' ids, emit_states st l = POk (st', ids) -> List.length ids = List.length l.
+Proof.
+  induction l as [|s l IH]; intros st st' ids H; cbn [emit_states] in H.
+  - inversion H; reflexivity.
+  - destruct (emit_state st s) as [[st1 sid]| |] eqn:E1; cbn [pbind] in H; try discriminate.
+    destruct (emit_states st1 l) as [[st2 ids']| |] eqn:E2; cbn [pbind] in H; try discriminate.
+    inversion H; subst. cbn [List.length]. f_equal. eapply IH; eauto.
+Qed.
+
+Lemma nodup_app_l {A} (a b : list A) : NoDup (a ++ b) -> NoDup a.
+Proof.
+  induction a as [|x a IH]; cbn [app]; intros H; [constructor|]. inversion H; subst. constructor.
+  - intros Hin. apply H2. apply in_or_app. left. exact Hin.
+  - apply IH. exact H3.
+Qed.
+
+Theorem serialize_parse_raw sy lines :
+  sys_ok_weak sy = true -> NoDup (declared sy) -> sys_fits sy = true ->
+  serialize sy = POk lines -> N.of_nat (List.length lines) <= U32MAX ->
+  exists m ps, map_ok m /\ parse_fold true lines p_empty false = POk (ps, false) /\
+    p_inputs ps = map (sm_app m) (s_inputs sy) /\
+    p_states ps = map (trs m true) (s_states sy) /\
+    map snd (p_outputs ps) = map (tr m) (map snd (s_outputs sy)) /\
+    p_bads ps = map (tr m) (s_bads sy) /\ p_constraints ps = map (tr m) (s_constraints sy).
+Proof.
+  intros Hok Hnd Hfit H Hlen. unfold serialize in H.
+  set (st1 := fold_left emit_input (s_inputs sy) w_empty) in *.
+  destruct (emit_states st1 (s_states sy)) as [[st2 ids]| |] eqn:E2; cbn [pbind] in H; try discriminate.
+  destruct (emit_props "output" st2 (map snd (s_outputs sy))) as [st3| |] eqn:E3; cbn [pbind] in H; try discriminate.
+  destruct (emit_props "constraint" st3 (s_constraints sy)) as [st4| |] eqn:E4; cbn [pbind] in H; try discriminate.
+  destruct (emit_props "bad" st4 (s_bads sy)) as [st5| |] eqn:E5; cbn [pbind] in H; try discriminate.
+  destruct (emit_nexts st5 (s_states sy) ids) as [st6| |] eqn:E6; cbn [pbind] in H; try discriminate.
+  inversion H; subst lines. clear H. rewrite rev_length in Hlen.
+  (* counters *)
+  assert (Hc0 : cnt w_empty) by (unfold cnt; cbn; lia).
+  pose proof (cnt_inputs (s_inputs sy) _ Hc0) as Hc1. fold st1 in Hc1.
+  pose proof (cnt_emit_states _ _ _ _ E2 Hc1) as Hc2. pose proof (cnt_props _ _ _ _ E3 Hc2) as Hc3.
+  pose proof (cnt_props _ _ _ _ E4 Hc3) as Hc4. pose proof (cnt_props _ _ _ _ E5 Hc4) as Hc5.
+  pose proof (cnt_nexts _ _ _ _ E6 Hc5) as Hc6.
+  assert (Hb6 : w_next st6 <= BOUND) by (unfold cnt in Hc6; unfold BOUND; lia).
+  pose proof (emit_nexts_next _ _ _ _ E6) as N6. pose proof (emit_props_next _ _ _ _ E5) as N5.
+  pose proof (emit_props_next _ _ _ _ E4) as N4. pose proof (emit_props_next _ _ _ _ E3) as N3.
+  pose proof (emit_states_next _ _ _ _ E2) as N2.
+  (* well-formedness, piecewise *)
+  unfold sys_ok_weak in Hok.
+  apply andb_true_iff in Hok. destruct Hok as [Hok Hokc]. apply andb_true_iff in Hok. destruct Hok as [Hok Hokb].
+  apply andb_true_iff in Hok. destruct Hok as [Hok Hoko]. apply andb_true_iff in Hok. destruct Hok as [Hoki Hoks].
+  unfold sys_fits, all_exprs in Hfit. rewrite !forallb_app in Hfit.
+  apply andb_true_iff in Hfit. destruct Hfit as [Hfi Hfit]. apply andb_true_iff in Hfit. destruct Hfit as [Hfo Hfit].
+  apply andb_true_iff in Hfit. destruct Hfit as [Hfb Hfit]. apply andb_true_iff in Hfit. destruct Hfit as [Hfc Hfs].
+  rewrite forallb_forall in Hoki, Hoks, Hoko, Hokb, Hokc, Hfi, Hfo, Hfb, Hfc, Hfs.
+  assert (Hins : Forall sym_ok (s_inputs sy)).
+  { apply Forall_forall. intros i Hi. specialize (Hoki _ Hi). apply andb_true_iff in Hoki. destruct Hoki. repeat split; auto. }
+  assert (Hsts : Forall st_ok (s_states sy)).
+  { apply Forall_forall. intros s Hs. split; [apply Hoks; exact Hs|].
+    assert (Hall : forall e, In e (st_sym s :: (match st_init s with Some e => [e] | None => [] end)
+                                  ++ (match st_next s with Some e => [e] | None => [] end)) -> efits e = true).
+    { intros e He. apply Hfs. apply in_flat_map. exists s. split; assumption. }
+    repeat split.
+    - apply Hall. left. reflexivity.
+    - intros e He. apply Hall. right. apply in_or_app. left. rewrite He. left. reflexivity.
+    - intros e He. apply Hall. right. apply in_or_app. right. rewrite He. left. reflexivity. }
+  assert (Houts : Forall expr_ok (map snd (s_outputs sy))).
+  { apply Forall_forall. intros e He. apply in_map_iff in He. destruct He as (o & <- & Ho). split; [apply Hoko; exact Ho|].
+    apply Hfo. apply in_map. exact Ho. }
+  assert (Hcons : Forall expr_ok (s_constraints sy)) by (apply Forall_forall; intros e He; split; auto).
+  assert (Hbads : Forall expr_ok (s_bads sy)) by (apply Forall_forall; intros e He; split; auto).
+  (* inputs *)
+  destruct (inputs_sim (s_inputs sy) [] w_empty p_empty [] inv_init sh_init' ltac:(repeat split) Hins) as (m1 & ps1 & Hinv1 & Hsh1 & Hnp1).
+  { cbn [app]. unfold declared in Hnd. apply nodup_app_l in Hnd. exact Hnd. }
+  { fold st1. lia. }
+  fold st1 in Hinv1. cbn [app] in Hsh1.
+  (* states *)
+  destruct (states_sim (s_states sy) m1 st1 ps1 (s_inputs sy) [] [] st2 ids Hinv1 Hsh1 Hnp1 Hsts) as (m & ps2 & Hinv2 & Hsh2 & Hnp2 & Hids2); auto.
+  { lia. }
+  cbn [app] in Hsh2, Hids2.
+  (* outputs, constraints, bads *)
+  destruct (props_sim KOut m _ st2 ps2 st3 Hinv2 Houts E3 ltac:(lia)) as (ps3 & Hinv3 & Hd3 & Hk3 & Ho3).
+  destruct (props_sim KCon m _ st3 ps3 st4 Hinv3 Hcons E4 ltac:(lia)) as (ps4 & Hinv4 & Hd4 & Hk4 & Ho4).
+  destruct (props_sim KBad m _ st4 ps4 st5 Hinv4 Hbads E5 ltac:(lia)) as (ps5 & Hinv5 & Hd5 & Hk5 & Ho5).
+  pose proof (decl_eq_trans _ _ _ Hd3 (decl_eq_trans _ _ _ Hd4 Hd5)) as (D1 & D2 & D3).
+  (* nexts *)
+  destruct (nexts_sim m (s_states sy) ids [] [] st5 ps5 st6 Hinv5) as (ps6 & Hinv6 & Hst6 & P1 & P2 & P3 & P4 & P5); auto.
+  { cbn [map app]. rewrite <- D3. apply (sh_states _ _ _ _ _ Hsh2). }
+  { cbn [app]. intros j sid Hj. rewrite <- D1. apply (sh_ids _ _ _ _ _ Hsh2 _ _ Hj). }
+  { apply (emit_states_len _ _ _ _ E2). }
+  { cbn [app]. eapply Forall_impl; [|exact Hids2]. intros a Ha. cbn beta in *. lia. }
+  cbn [app] in Hst6.
+  exists m, ps6. split; [apply (i_map _ _ _ Hinv6)|]. split; [exact (i_run _ _ _ Hinv6)|].
+  destruct Hnp2 as (Q1 & Q2 & Q3).
+  split; [rewrite <- P1, <- D2; apply (sh_inputs _ _ _ _ _ Hsh2)|]. split; [exact Hst6|]. split; [|split].
+  - rewrite <- P3. change (map snd (p_outputs ps5)) with (klist KOut ps5).
+    rewrite (Ho5 KOut ltac:(discriminate)), (Ho4 KOut ltac:(discriminate)), Hk3. cbn [klist]. rewrite Q1. reflexivity.
+  - rewrite <- P4. change (p_bads ps5) with (klist KBad ps5). rewrite Hk5, (Ho4 KBad ltac:(discriminate)), (Ho3 KBad ltac:(discriminate)).
+    cbn [klist]. rewrite Q2. reflexivity.
+  - rewrite <- P5. change (p_constraints ps5) with (klist KCon ps5). rewrite (Ho5 KCon ltac:(discriminate)), Hk4, (Ho3 KCon ltac:(discriminate)).
+    cbn [klist]. rewrite Q3. reflexivity.
+Qed.
